@@ -3,6 +3,7 @@
 E1: all documented pairs over lattice points / lines / planes x poses, both argument orders,
 function and method forms, against the exact rational squared distance."""
 import math
+from fractions import Fraction as F
 
 from Geometry3D import distance, intersection, Point
 
@@ -70,6 +71,51 @@ class Pairs(Mixed):
         return not (cell.endswith('skew|positive'))
 
 
+class Moved(Pairs):
+    """distance, then move one operand in place, then distance again (against the exact translated scene)."""
+
+    def eval(self, scene):
+        return eval_moved(self.name, scene[0], scene[1])
+
+
+MOVES = ((0, 0, 3), (1, 2, -1), (F(-1, 2), F(1, 4), 0))
+
+
+def eval_moved(fam, a, b):
+    from Geometry3D import Vector
+    g = X.Guard()
+    e, rel = X.inter_flat(a, b, g)
+    if not g.ok():
+        return 'skip:margin', []
+    la, lb = lib.to_lib(a), lib.to_lib(b)
+    viols = []
+    lib.call(distance, la, lb)
+    lib.call(intersection, la, lb)
+    ta, tb = a, b
+    for i, v in enumerate(MOVES):
+        which = i % 2
+        obj = (la, lb)[which]
+        r = lib.call(obj.move, lib.V(v))
+        if isinstance(r, lib.Raised):
+            viols.append(Viol('C10|moved|%s,%s|move-raises:%s' % (a[0], b[0], r.cls), core.enc((a, b)), 'moved', repr(r), ''))
+            break
+        if which == 0:
+            ta = X.xform(ta, ((1, 0, 0), (0, 1, 0), (0, 0, 1)), 1, v)
+        else:
+            tb = X.xform(tb, ((1, 0, 0), (0, 1, 0), (0, 0, 1)), 1, v)
+        exp = math.sqrt(X.dist2(ta, tb))
+        for form, th in (('fn', lambda: distance(la, lb)), ('fn-swapped', lambda: distance(lb, la))):
+            d = lib.call(th)
+            if isinstance(d, lib.Raised) or isinstance(d, bool) or not isinstance(d, (int, float)) or not abs(d - exp) <= 1e-9 * max(1.0, exp):
+                viols.append(Viol('C10|moved|%s|%s,%s|wrong-value-after-in-place-move' % (form, a[0], b[0]), core.enc((a, b)), exp, lib.describe(d),
+                                  'distance after moving operand %d in place by %r (step %d)' % (which, v, i)))
+                return '%s,%s|moved' % (a[0], b[0]), viols
+    return '%s,%s|moved' % (a[0], b[0]), viols
+
+
+from fractions import Fraction as F
+
+
 class ParallelLinePlane(Pairs):
     """every primitive lattice normal n with |x| <= R x every primitive direction d with d.n = 0, |x| <= R:
     a line exactly parallel to (or inside) an oblique plane, a cell that small alphabets under-populate."""
@@ -113,6 +159,9 @@ def families(tier):
         fams.append(Pairs('LnPl', pose, planes, lines, chunk=4))
     fams = A.with_int_mode(fams, tier)
     fams.append(ParallelLinePlane(6 if tier == 'quick' else 8))
+    step = 9 if tier == 'quick' else 2
+    fams.append(Moved('moved', A.P1, planes[::step], lines[::step] + points[::3], chunk=2))
+    fams.append(Moved('moved-ll', A.P0, lines[::step * 2], lines[::step] + points[::3], both_orders=False, chunk=2))
     return fams
 
 
@@ -127,4 +176,6 @@ def run(tier, seed):
 
 def replay(family, scene):
     a, b = core.dec(scene)
+    if family.startswith('moved'):
+        return eval_moved(family, a, b)[1]
     return eval_pair(family, a, b)[1]
